@@ -7,4 +7,6 @@ fn main() {
     dbg!(&readme);
     println!("cargo:rerun-if-changed={readme_file}");
     println!("cargo:rustc-env=README={readme}");
+    // verification hooks are compiled only with `--cfg epserde_verif`
+    println!("cargo::rustc-check-cfg=cfg(epserde_verif)");
 }
